@@ -4,7 +4,7 @@ Fox calculus fundamental formula.
 
 Only property theorems and non-vacuity examples live here.  Models: `GT.Model.Words`,
 `GT.Model.Rep`; helper lemmas: `GT.Lemmas.Rep`, `GT.Lemmas.RepHom`, `GT.Lemmas.RepDerived`,
-`GT.Lemmas.Fox`.
+`GT.Lemmas.Fox`, `GT.Lemmas.Names`, `GT.Lemmas.Sym2`, `GT.Lemmas.Sym2Rep`.
 
 Conventions.  `ρ.value w : Except String (Matrix (Fin n) (Fin n) R)` is the denotation (a Mathlib
 matrix) of what the executable `ρ.wordValue w` (the model of `Representation._word_value`, an
@@ -17,6 +17,8 @@ under the contract `InvertOK` for `numpy.linalg.inv`.
 import GT.Lemmas.RepHom
 import GT.Lemmas.RepDerived
 import GT.Lemmas.Fox
+import GT.Lemmas.Names
+import GT.Lemmas.Sym2Rep
 
 set_option linter.unusedSectionVars false
 
@@ -50,6 +52,22 @@ theorem setGenerator_coherent {invert : DMat n n R → Option (DMat n n R)} (hin
     (hg2 : ρ.inv (ρ.inv g) = g) (hg1 : ρ.inv g ≠ g)
     (h : ρ.setGenerator invert g A true = .ok σ) : σ.WF :=
   Rep.setGenerator_wf hinv hρ hg2 hg1 h
+
+/-- **all orders of assigning and re-assigning generators**: any sequence of assignments
+`rep[g₁] = A₁; rep[g₂] = A₂; …` that the code accepts (names pass the guards of `_set_generator`,
+lower- or upper-case, repeated or not) on a fresh `Representation()` produces a dict in which
+every letter's inverse letter holds the inverse matrix — the only assumption is the contract
+of `numpy.linalg.inv`. -/
+theorem history_coherent {invert : DMat n n R → Option (DMat n n R)} (hinv : InvertOK invert)
+    (hist : List (Gen × DMat n n R)) (ps : Bool) (rels : List Word) {ρ : Rep n R}
+    (h : hist.foldlM (fun ρ h => ρ.setGenerator invert h.1 h.2 true)
+      ({ gens := [], inv := invertGen, parseSimple := ps, relations := rels } : Rep n R) = .ok ρ) :
+    ρ.WF ∧ ρ.inv = invertGen :=
+  Rep.history_wf hinv hist _ ρ (Rep.wf_empty invertGen ps rels) rfl h
+
+/-- on every name `_set_generator` accepts, `invert_gen` is an involution without fixed point -/
+theorem invertGen_involutive_on_valid {g : Gen} (hv : validName g = true) :
+    invertGen (invertGen g) = g ∧ invertGen g ≠ g := Rep.invertGen_of_valid hv
 
 /-- an inverse letter maps to the inverse matrix -/
 theorem wordValue_inv_letter {ρ : Rep n R} (hc : ρ.Coherent) {g : Gen} {A : Matrix (Fin n) (Fin n) R}
@@ -85,6 +103,10 @@ theorem compose_wf {h : DMat n n R → DMat n n R → M? (DMat m m S)} {ρ : Rep
     (hh : ∀ A Ai B, h A Ai = .ok B → A.toMatrix * Ai.toMatrix = 1 → B.toMatrix = H A.toMatrix)
     (hwf : ρ.WF) (hσ : ρ.compose h = .ok σ) : σ.WF :=
   Rep.compose_coherent H hone hmul hh hwf hσ
+
+/-- `Representation(rep)` (copy): the same dict, hence the same image of every word -/
+theorem copy_hom {ρ σ : Rep n R} (hnd : (ρ.gens.map Prod.fst).Nodup) (h : ρ.copy = .ok σ) (w : Word) :
+    σ.value w = ρ.value w := by rw [Rep.copy_eq hnd h]
 
 /-- `rep.conjugate(C, Ci)`: `w ↦ Ci · ρ(w) · C` -/
 theorem conjugate_hom {ρ σ : Rep n R} {C Ci : DMat n n R} (hC : C.toMatrix * Ci.toMatrix = 1)
@@ -179,6 +201,37 @@ theorem tensor_hom {p : ℕ} {invert : DMat (n * p) (n * p) R → Option (DMat (
     (hA : ρ.value w = .ok A) (hB : σ.value w = .ok B) :
     τ.value w = .ok (Rep.kron A B) ∧ τ.WF :=
   Rep.tensor_value hinv hτ hcρ hcσ hn hpρ hpσ hiρ hiσ w hw hA hB
+
+/-- `sym_index` is a bijection from unordered pairs of `0..n-1` onto `0..n(n+1)/2 - 1` (the
+float formula `int((n-i)(n-i-1)/2 + (j-i))` is exact because the product is even) -/
+theorem symIndex_bijective {n : ℕ} :
+    (∀ i j, i < n → j < n → Rep.symIndex i j n < Rep.symDim n) ∧
+    (∀ i j u v, i < n → j < n → u < n → v < n → Rep.symIndex i j n = Rep.symIndex u v n →
+      (i = u ∧ j = v) ∨ (i = v ∧ j = u)) ∧
+    (∀ s, s < Rep.symDim n → ∃ i j, i ≤ j ∧ j < n ∧ Rep.symIndex i j n = s) :=
+  ⟨fun _ _ hi hj => Rep.symIndex_lt hi hj, fun _ _ _ _ hi hj hu hv h => Rep.symIndex_inj hi hj hu hv h,
+   fun _ h => Rep.symIndex_surj h⟩
+
+/-- `A ↦ P·(A ⊗ A)·I` (`symmetric_projection`, Kronecker square, `symmetric_inclusion`) is a
+monoid homomorphism when `2·half = 1` -/
+theorem symH_hom {half : R} (hh : 2 * half = 1) :
+    Rep.symH half (1 : Matrix (Fin n) (Fin n) R) = 1 ∧
+    ∀ X Y : Matrix (Fin n) (Fin n) R, Rep.symH half (X * Y) = Rep.symH half X * Rep.symH half Y :=
+  ⟨Rep.symH_one hh, Rep.symH_mul hh⟩
+
+/-- `rep.symmetric_square()` (repaired code): `w ↦ P·(ρ(w) ⊗ ρ(w))·I` -/
+theorem symmetric_square_hom {half : R} (hh : 2 * half = 1)
+    {invertT : DMat (n * n) (n * n) R → Option (DMat (n * n) (n * n) R)}
+    {invertS : DMat (Rep.symDim n) (Rep.symDim n) R → Option (DMat (Rep.symDim n) (Rep.symDim n) R)}
+    (hiT : InvertOK invertT) (hiS : InvertOK invertS)
+    {ρ : Rep n R} {σ : Rep (Rep.symDim n) R} (hσ : ρ.symmetricSquare half invertT invertS = .ok σ)
+    (hc : ρ.Coherent) (hn : Rep.NamesOK invertGen ρ.asymGens)
+    (hp : ∀ g ∈ ρ.asymGens, parseWord ρ.parseSimple g = [g])
+    (hi : ∀ g ∈ ρ.asymGens, ρ.inv g = invertGen g)
+    (w : Word) (hw : ∀ x ∈ w, x ∈ ρ.asymGens ∨ ∃ g ∈ ρ.asymGens, x = invertGen g)
+    {A : Matrix (Fin n) (Fin n) R} (hA : ρ.value w = .ok A) :
+    σ.value w = .ok (Rep.symH half A) ∧ σ.WF :=
+  Rep.sym2_value hh hiT hiS hσ hc hn hp hi w hw hA
 
 /-- `rep.subgroup({g: word})` (default `compute_inverse=True`): a word in the new generators is
 sent to the image of the word obtained by substitution (`g ↦ word(g)`,
@@ -327,6 +380,12 @@ example : ∃ τ A, exRep.tensorProduct Rep.invertZ exRep = .ok τ ∧ exRep.val
   refine ⟨τ, A, hτ, hA, (tensor_hom Rep.invertZ_ok hτ exRep_coherent exRep_coherent exNames
     ?_ ?_ ?_ ?_ ["a", "B"] ?_ hA hA).1⟩
   all_goals (rw [exRep_asymGens]; decide)
+
+/-- symmetric square over ℚ (where `1/2` exists) -/
+private def exQ : Rep 2 ℚ :=
+  { gens := [("a", DMat.ofMatrix !![1, 1; 0, 1]), ("A", DMat.ofMatrix !![1, -1; 0, 1])] }
+
+example : ∃ σ, exQ.symmetricSquare (1 / 2) Rep.invertG Rep.invertG = .ok σ := ⟨_, rfl⟩
 
 /-- subgroup generated by `x = ab`, `y = bA` -/
 example : ∃ σ A, exRep.subgroup Rep.invertZ [("x", ["a", "b"]), ("y", ["b", "A"])] true [] = .ok σ ∧
